@@ -227,8 +227,10 @@ def _from_bits_iterable(ns, l, k):
 defop("from_bits_it", _from_bits_iterable, ["L", "i"], lambda a, cfg, ts: len(a[0]) > 0, weight=0.4, params={1: ("k", 0, 4)})
 defop("bit", lambda ns, l, k: l[k % len(l)], ["L", "i"], lambda a, cfg, ts: len(a[0]) > 0, params={1: ("k", 0, 40)})
 defop("val", lambda ns, x: x.val(), ["IBF"], weight=0.5)
-defop("ite", lambda ns, c, x, y: ns.br.if_then_else(c, x, y), ["B", "IBFi", "IBFi"], weight=2.0)
+defop("ite", lambda ns, c, x, y: ns.br.if_then_else(c, x, y), ["Bb", "IBFi", "IBFi"], weight=2.0)
 defop("if_else", lambda ns, c, x, y: c.if_else(x, y), ["B", "Ii", "Ii"], weight=0.5)
+# LinComb.if_else: the condition is an integer wire holding 0 or 1 (not a declared boolean)
+defop("lc_if_else", lambda ns, c, x, y: c.if_else(x, y), ["I", "Ii", "Ii"], lambda a, cfg, ts: a[0] in (0, 1), weight=0.4)
 defop("toB", lambda ns, x: ns.bo.LinCombBool(x), ["I"], lambda a, cfg, ts: a[0] in (0, 1))
 defop("ensurebool", lambda ns, x: ns.bo.LinCombBool._ensurebool(x), ["IBi"], lambda a, cfg, ts: a[0] in (0, 1), weight=0.3)
 defop("toF", lambda ns, x: ns.fx.LinCombFxp(x), ["I"], weight=0.7)
@@ -237,6 +239,14 @@ defop("array", lambda ns, *xs: ns.ar.Array(list(xs)), ["Ii", "Ii", "Ii"], weight
 defop("aget", lambda ns, a, i: a[i], ["A", "Ii"], lambda a, cfg, ts: 0 <= a[1] < len(a[0]), weight=1.5)
 defop("aset", lambda ns, a, i, v: a.__setitem__(i, v), ["A", "Ii", "Ii"], lambda a, cfg, ts: 0 <= a[1] < len(a[0]), weight=1.5)
 defop("lin_comb", lambda ns, a, b, c, d: ns.la.lin_comb([a, b], [c, d]), ["Ii", "Ii", "I", "I"], weight=0.3)
+# Array arithmetic and the linalg helpers (README: "Array arithmetic (+, -, scalar *)", joined(), if_then_else on arrays)
+defop("arr_add", lambda ns, a, b: a + b, ["A", "A"], lambda a, cfg, ts: len(a[0]) == len(a[1]), weight=0.4)
+defop("arr_sub", lambda ns, a, b: a - b, ["A", "A"], lambda a, cfg, ts: len(a[0]) == len(a[1]), weight=0.4)
+defop("arr_scale", lambda ns, a, k: a * k if isinstance(k, int) and k % 2 else k * a, ["A", "Ii"], weight=0.4)
+defop("arr_ite", lambda ns, c, a, b: ns.br.if_then_else(c, a, b), ["B", "A", "A"], lambda a, cfg, ts: len(a[1]) == len(a[2]), weight=0.4)
+defop("arr_joined", lambda ns, a, b: ns.ar.Array(ns.ar.Array([a, b]).joined()), ["A", "A"], weight=0.2)
+defop("scalar_mul", lambda ns, k, a: ns.ar.Array(ns.la.scalar_mul(k, a.arr)), ["Ii", "A"], weight=0.2)
+defop("vector_sub", lambda ns, a, b: ns.ar.Array(ns.la.vector_sub(a.arr, b.arr)), ["A", "A"], lambda a, cfg, ts: len(a[0]) == len(a[1]), weight=0.2)
 
 
 def _poseidon(ns, *xs):
